@@ -20,7 +20,10 @@
 (* sharing their function maps ("CtxMaps"), hash tables recycled through a *)
 (* pool without synchronisation... ("Pool" - a sync.Pool itself is safe,   *)
 (* the table handed back while still in use is not), new columns appended  *)
-(* into the parent's header capacity ("Append").  Each must violate        *)
+(* into the parent's header capacity ("Append"), the int column that a     *)
+(* comparison with a float column promotes for the duration of the filter  *)
+(* written back into the name map that the frame shares with everything    *)
+(* derived from it by a new row index ("NameMap").  Each must violate      *)
 (* NoRace.                                                                 *)
 (* Every (operation, operation, relation) triple is emitted; the harness   *)
 (* expands it to a concurrent batch on real frames under the race detector *)
@@ -30,29 +33,30 @@ EXTENDS Integers, Sequences, FiniteSets, TLC, Json
 
 CONSTANTS Pins, Emit, EmitRels
 
-OpKinds == <<"FilterLike", "FilterInt", "FilterEnum", "FilterAnd", "FilterOr", "Sort", "Distinct", "GroupAgg", "ApplyFn", "ApplyUpper", "EvalCtx", "EvalPlain",
+OpKinds == <<"FilterLike", "FilterInt", "FilterMixed", "FilterEnum", "FilterAnd", "FilterOr", "Sort", "Distinct", "GroupAgg", "ApplyFn", "ApplyUpper", "EvalCtx", "EvalPlain",
              "CopyAdd", "RowNums", "ToCSV", "ToJSON", "String", "Equals", "Slice", "Select", "ViewSlice">>
 Rels == <<"same", "slice", "select", "sorted", "filtered", "added">>
 
 \* location classes of frame 1 that frame 2 = rel(frame 1) shares
 Shared(rel) ==
-  CASE rel = "same"     -> {"store", "index", "hdr", "slack"}
-    [] rel = "slice"    -> {"store", "index"}            \* a window of the same index array
+  CASE rel = "same"     -> {"store", "index", "hdr", "slack", "names"}
+    [] rel = "slice"    -> {"store", "index", "names"}   \* a window of the same index array; withIndex keeps the name map
     [] rel = "select"   -> {"store", "index"}
     [] rel = "added"    -> {"store", "index"}            \* Copy / Apply results: own header
-    [] rel = "sorted"   -> {"store"}
-    [] rel = "filtered" -> {"store"}
+    [] rel = "sorted"   -> {"store", "names"}
+    [] rel = "filtered" -> {"store", "names"}
 Pkg == {"pkg.likebuf", "pkg.ctxmaps", "pkg.pool"}
 
 Adders == {"ApplyFn", "ApplyUpper", "EvalCtx", "EvalPlain", "CopyAdd", "RowNums"}
 Reads(op) ==
-  {"store", "index", "hdr"}
+  {"store", "index", "hdr", "names"}
   \cup (IF "CtxMaps" \in Pins /\ op \in {"EvalCtx", "EvalPlain"} THEN {"pkg.ctxmaps"} ELSE {})
 Writes(op) ==
   (IF "LikeBuf" \in Pins /\ op = "FilterLike" THEN {"pkg.likebuf"} ELSE {})
   \cup (IF "CtxMaps" \in Pins /\ op = "EvalCtx" THEN {"pkg.ctxmaps"} ELSE {})      \* SetFunc on a context of its own
   \cup (IF "Pool" \in Pins /\ op \in {"Distinct", "GroupAgg"} THEN {"pkg.pool"} ELSE {})
   \cup (IF "Append" \in Pins /\ op \in Adders THEN {"slack"} ELSE {})
+  \cup (IF "NameMap" \in Pins /\ op = "FilterMixed" THEN {"names"} ELSE {})
 
 VARIABLES a, b, rel, stage
 vars == <<a, b, rel, stage>>
